@@ -3,14 +3,15 @@
    observes them, and the session's stream table (GetActiveStreamCount).
    NO PROOFS in this file (it must still run when a proof breaks).
 
-   Granularity.  One label = one API call of one caller (Get, Put, Write, Flush, Read, Release,
+   Granularity.  One label = one API call of one caller (Get, Write, Flush, Read, Release,
    Close of a held stream) or one event of the environment (peer data / peer close reaching the
    client, circuit-breaker timer, session loss, the session's cleanup closure, one pop of the
    manager's pool.close(), the rebuild).  This is sound for the ring clauses because push and pop
    run entirely under the pool mutex (they are atomic), a popped stream is exclusively owned by the
    popping caller until it is returned or dropped, and the flags read afterwards (session shutdown,
    stream state) are single atomic loads of monotone flags; so every concurrent execution of
-   GetStream/PutBack by any number of callers is equivalent to a history of the atomic labels below.
+   GetStream by any number of callers is equivalent to a history of the atomic labels below.  PutBack is
+   two labels (PutPrepare: its work on the still exclusively held stream; PutPush: the hand-over).
    Callers are arbitrary natural numbers: any number of callers, any interleaving of their calls.
 
    Buffers are modelled as the list of the remaining byte counts of their slices (enough to decide
@@ -47,13 +48,14 @@ Record session := { shut : bool; cleaned : bool; unhealthy : bool; table : list 
 
 Record st := {
   fx : bool; fy : bool; cap : Z;
+  prep : list nat;                                       (* streams whose PutBack has done its work on the stream and has not pushed yet *)
   slots : Z -> nat; head : Z; tail : Z;                  (* the ring *)
   streams : nat -> stream; nstreams : nat;
   sessions : nat -> session; cur : nat; nsess : nat;     (* cur = pool.session *)
   held : list (nat * nat) }.                             (* (caller, stream) handed out by Get *)
 
 Inductive label :=
-| Get (c : nat) | Put (c x : nat)
+| Get (c : nat) | PutPrepare (c x : nat) | PutPush (c x : nat)
 | Write (c x : nat) (n : Z) (heap : bool) | Flush (c x : nat) | Read (c x : nat) (k : Z)
 | Release (c x : nat) | CloseS (c x : nat)
 | PeerData (x : nat) (n : Z) (fb : bool) | PeerClose (x : nat) | Heal
@@ -67,7 +69,7 @@ Definition new_stream (k : nat) : stream :=
 Definition new_session : session := {| shut := false; cleaned := false; unhealthy := false; table := [] |}.
 
 Definition init (f g : bool) (c : Z) : st :=
-  {| fx := f; fy := g; cap := c; slots := fun _ => O; head := 0; tail := 0;
+  {| fx := f; fy := g; prep := []; cap := c; slots := fun _ => O; head := 0; tail := 0;
      streams := fun _ => new_stream O; nstreams := O;
      sessions := fun _ => new_session; cur := O; nsess := 1%nat; held := [] |}.
 
@@ -76,19 +78,19 @@ Definition updn {A} (f : nat -> A) (k : nat) (v : A) : nat -> A := fun i => if N
 Definition updz {A} (f : Z -> A) (k : Z) (v : A) : Z -> A := fun i => if i =? k then v else f i.
 
 Definition set_stream (x : nat) (v : stream) (s : st) : st :=
-  {| fx := fx s; fy := fy s; cap := cap s; slots := slots s; head := head s; tail := tail s;
+  {| fx := fx s; fy := fy s; prep := prep s; cap := cap s; slots := slots s; head := head s; tail := tail s;
      streams := updn (streams s) x v; nstreams := nstreams s;
      sessions := sessions s; cur := cur s; nsess := nsess s; held := held s |}.
 Definition set_session (k : nat) (v : session) (s : st) : st :=
-  {| fx := fx s; fy := fy s; cap := cap s; slots := slots s; head := head s; tail := tail s;
+  {| fx := fx s; fy := fy s; prep := prep s; cap := cap s; slots := slots s; head := head s; tail := tail s;
      streams := streams s; nstreams := nstreams s;
      sessions := updn (sessions s) k v; cur := cur s; nsess := nsess s; held := held s |}.
 Definition set_held (h : list (nat * nat)) (s : st) : st :=
-  {| fx := fx s; fy := fy s; cap := cap s; slots := slots s; head := head s; tail := tail s;
+  {| fx := fx s; fy := fy s; prep := prep s; cap := cap s; slots := slots s; head := head s; tail := tail s;
      streams := streams s; nstreams := nstreams s;
      sessions := sessions s; cur := cur s; nsess := nsess s; held := h |}.
 Definition set_head (h : Z) (s : st) : st :=
-  {| fx := fx s; fy := fy s; cap := cap s; slots := slots s; head := h; tail := tail s;
+  {| fx := fx s; fy := fy s; prep := prep s; cap := cap s; slots := slots s; head := h; tail := tail s;
      streams := streams s; nstreams := nstreams s;
      sessions := sessions s; cur := cur s; nsess := nsess s; held := held s |}.
 
@@ -116,7 +118,7 @@ Definition close_stream (x : nat) (s : st) : st :=
 (* ---- the ring (session_manager.go pop / push, under p.Lock) ---- *)
 Definition ring_push (x : nat) (s : st) : option st :=
   if tail s - head s <? cap s then
-    Some {| fx := fx s; fy := fy s; cap := cap s; slots := updz (slots s) (tail s mod cap s) x; head := head s; tail := tail s + 1;
+    Some {| fx := fx s; fy := fy s; prep := prep s; cap := cap s; slots := updz (slots s) (tail s mod cap s) x; head := head s; tail := tail s + 1;
             streams := streams s; nstreams := nstreams s;
             sessions := sessions s; cur := cur s; nsess := nsess s; held := held s |}
   else None.
@@ -151,7 +153,7 @@ Definition open_stream (c : nat) (s : st) : st * result :=
   else if unhealthy k then (s, RUnhealthy)
   else
     let x := nstreams s in
-    let s1 := {| fx := fx s; fy := fy s; cap := cap s; slots := slots s; head := head s; tail := tail s;
+    let s1 := {| fx := fx s; fy := fy s; prep := prep s; cap := cap s; slots := slots s; head := head s; tail := tail s;
                  streams := updn (streams s) x (new_stream (cur s)); nstreams := S x;
                  sessions := updn (sessions s) (cur s) (with_table (table k ++ [x]) k);
                  cur := cur s; nsess := nsess s; held := held s |} in
@@ -180,19 +182,39 @@ Definition recycled_for_reuse (v : stream) : stream :=
   | _ => {| sst := sst v; ssess := ssess v; rbuf := rbuf v; sbuf := sbuf v; sheap := sheap v; pend := pend v; infb := false |}
   end.
 
-Definition do_put (c x : nat) (s : st) : st * result :=
-  if negb (holds c x s) then (s, RIgnored)     (* callers give back only what they were given *)
+Definition memn (x : nat) (l : list nat) : bool := existsb (Nat.eqb x) l.
+Definition set_prep (l : list nat) (s : st) : st :=
+  {| fx := fx s; fy := fy s; prep := l; cap := cap s; slots := slots s; head := head s; tail := tail s;
+     streams := streams s; nstreams := nstreams s;
+     sessions := sessions s; cur := cur s; nsess := nsess s; held := held s |}.
+(* the caller may use the stream: it was handed to it and it is not inside PutBack with it *)
+Definition owns (c x : nat) (s : st) : bool := holds c x s && negb (memn x (prep s)).
+
+(* SessionManager.PutBack is NOT atomic.  Its work on the stream (fallback test, reset(),
+   ReleaseReadAndReuse: pinned slices released, buffers swapped) touches only the stream, which the
+   putting goroutine still holds exclusively - one label, PutPrepare, after which the stream is STILL HELD
+   by the caller; only the last step, PutPush (push under the pool mutex, or Close when the ring is full),
+   gives the stream up and makes it visible to other callers.  A PutPush without a preceding PutPrepare is
+   not a step of the model: code that pushes first and releases afterwards is not an implementation. *)
+Definition do_put_prepare (c x : nat) (s : st) : st * result :=
+  if negb (owns c x s) then (s, RIgnored)      (* callers give back only what they were given *)
   else
-    let s0 := rem_held c x s in
-    let v := streams s0 x in
-    if infb v then (close_stream x s0, RNone)
-    else if negb (resettable (fy s0) v) then (close_stream x s0, RNone)
-    else
-      let s1 := set_stream x (recycled_for_reuse v) s0 in
-      match ring_push x s1 with
-      | Some s2 => (s2, RNone)
-      | None => (close_stream x s1, RNone)
-      end.
+    let v := streams s x in
+    if infb v then (close_stream x (rem_held c x s), RNone)
+    else if negb (resettable (fy s) v) then (close_stream x (rem_held c x s), RNone)
+    else (set_prep (x :: prep s) (set_stream x (recycled_for_reuse v) s), RNone).
+
+Definition do_put_push (c x : nat) (s : st) : st * result :=
+  if negb (holds c x s && memn x (prep s)) then (s, RIgnored)
+  else
+    let s1 := set_prep (filter (fun y => negb (Nat.eqb y x)) (prep s)) (rem_held c x s) in
+    match ring_push x s1 with
+    | Some s2 => (s2, RNone)
+    | None => (close_stream x s1, RNone)
+    end.
+
+(* the whole PutBack when nothing interleaves *)
+Definition put_labels (c x : nat) : list label := [PutPrepare c x; PutPush c x].
 
 (* ---- what a holder does with its stream ---- *)
 Fixpoint add_last (n : Z) (l : list Z) : list Z :=
@@ -258,7 +280,7 @@ Definition do_peer_close (x : nat) (s : st) : st :=
 Definition do_cleanup (k : nat) (s : st) : st :=
   let ks := sessions s k in
   if shut ks && negb (cleaned ks) then
-    {| fx := fx s; fy := fy s; cap := cap s; slots := slots s; head := head s; tail := tail s;
+    {| fx := fx s; fy := fy s; prep := prep s; cap := cap s; slots := slots s; head := head s; tail := tail s;
        streams := fun x => if existsb (Nat.eqb x) (table ks) then closed_of (streams s x) else streams s x;
        nstreams := nstreams s;
        sessions := updn (sessions s) k {| shut := true; cleaned := true; unhealthy := unhealthy ks; table := [] |};
@@ -277,7 +299,7 @@ Definition do_bg_pop (s : st) : st :=
 
 Definition do_rebuild (s : st) : st :=
   if shut (sessions s (cur s)) then
-    {| fx := fx s; fy := fy s; cap := cap s; slots := slots s; head := head s; tail := tail s;
+    {| fx := fx s; fy := fy s; prep := prep s; cap := cap s; slots := slots s; head := head s; tail := tail s;
        streams := streams s; nstreams := nstreams s;
        sessions := updn (sessions s) (nsess s) new_session; cur := nsess s; nsess := S (nsess s); held := held s |}
   else s.
@@ -285,12 +307,13 @@ Definition do_rebuild (s : st) : st :=
 Definition step (s : st) (l : label) : st * result :=
   match l with
   | Get c => do_get c s
-  | Put c x => do_put c x s
-  | Write c x n h => if holds c x s && (0 <? n) then (do_write x n h s, RNone) else (s, RIgnored)
-  | Flush c x => if holds c x s then (do_flush x s, RNone) else (s, RIgnored)
-  | Read c x k => if holds c x s then (do_read x k s, RNone) else (s, RIgnored)
-  | Release c x => if holds c x s then (do_release x s, RNone) else (s, RIgnored)
-  | CloseS c x => if holds c x s then (close_stream x s, RNone) else (s, RIgnored)
+  | PutPrepare c x => do_put_prepare c x s
+  | PutPush c x => do_put_push c x s
+  | Write c x n h => if owns c x s && (0 <? n) then (do_write x n h s, RNone) else (s, RIgnored)
+  | Flush c x => if owns c x s then (do_flush x s, RNone) else (s, RIgnored)
+  | Read c x k => if owns c x s then (do_read x k s, RNone) else (s, RIgnored)
+  | Release c x => if owns c x s then (do_release x s, RNone) else (s, RIgnored)
+  | CloseS c x => if owns c x s then (close_stream x s, RNone) else (s, RIgnored)
   | PeerData x n fb => (do_peer_data x n fb s, RNone)
   | PeerClose x => (do_peer_close x s, RNone)
   | Heal => (set_session (cur s) (with_unhealthy false (sessions s (cur s))) s, RNone)
@@ -304,6 +327,8 @@ Fixpoint run (s : st) (h : list label) : st :=
   match h with [] => s | l :: t => run (fst (step s l)) t end.
 
 (* ---- derived notions used by the property statements ---- *)
+(* pooled or about to be: PutBack has finished its work on the stream *)
+Definition prepared (s : st) (x : nat) : Prop := In x (prep s).
 Definition pooled (s : st) (x : nat) : Prop := exists i, head s <= i < tail s /\ slots s (i mod cap s) = x.
 Definition holder (s : st) (c x : nat) : Prop := In (c, x) (held s).
 
